@@ -56,6 +56,20 @@ def parts(ctx):
             ctx.traces_validated += 1
             if ld.get('expect') == 'may-overlap' and gd.get('observed') == 'overlap':
                 ctx.overlap2_may.append((c, g, l))
+    # the library's own sources and the context operators, context cancelled while a callback runs (kind=overlap3)
+    for c, g, l in R.run_kind(ctx, 'overlap3', shards=4):
+        ctx.evaluations += 1
+        gd, ld = R.parse_res(g), R.parse_res(l)
+        ctx.distinct.add(c.split(' ', 2)[2])
+        if flag(gd) or flag(ld):
+            ctx.violation('C02 overlap3 run could not be evaluated', f'{c}\n# implementation: {g}\n# model: {l}\n', no_input=True)
+        elif ld.get('expect') == 'serialized' and gd.get('observed') != 'serialized':
+            ctx.violation(f"C02: callbacks of one observer overlap (max inside = {gd.get('maxinside')}) on a source of the library whose subscription context is cancelled during a callback",
+                          f'# raw observer with an inside counter; the context is cancelled while the first value callback runs\n{c}\n# implementation: {g}\n# model: {l}\n')
+        else:
+            ctx.traces_validated += 1
+            if ld.get('expect') == 'may-overlap' and gd.get('observed') == 'overlap':
+                ctx.overlap2_may.append((c, g, l))
     # (c) subjects under several producer goroutines, observed directly and through the unsafe pass-throughs
     uni = 0
     for c, g, l in R.run_kind(ctx, 'subjoverlap', shards=4):
@@ -81,5 +95,5 @@ def parts(ctx):
                              f"directly downstream of a multi-source operator the observer's callbacks overlap (Lean: unsafe_passthrough_witness)")
     ctx.notes.append(f'overlap observed on the implementation in {confirmed} chains the model marks may-overlap (dynamic confirmation of the known finding)')
     return dict(rule_part='Merge of 3 goroutine-driven sources |> each operator / random chains of 2-3 operators into a raw observer with an inside counter; '
-                          'model verdict from emitMode over the regenerated rows; kind=overlap2: 23 multi-feeder set-ups (notifier / boundary / second source / inner observables / multi-source fallbacks / timers) x {second input completes, fails} with every input pumped from its own goroutine',
+                          'model verdict from emitMode over the regenerated rows; kind=overlap2: 23 multi-feeder set-ups (notifier / boundary / second source / inner observables / multi-source fallbacks / timers) x {second input completes, fails} with every input pumped from its own goroutine; kind=overlap3: 10 sources of the library / context operators with the subscription context cancelled while the first value callback runs',
                 search=table_search('C02', dynamic_overlap2))
